@@ -4,6 +4,7 @@
 pub mod decoder;
 pub mod effect;
 pub mod sound;
+pub mod streamctl;
 
 use crate::engine::monitor::{self, Guarded};
 use kira::backend::{Backend, Renderer};
